@@ -42,11 +42,12 @@ def main():
     rc, out = sh("git -C /repo worktree add --detach %s HEAD" % wt)
     try:
         shutil.copy(os.path.join(dst, "seed_demo.rs"), os.path.join(wt, "tests", "seed_demo.rs"))
-        rc0, out0 = sh("cargo test --offline --test seed_demo 2>&1 | tail -5", cwd=wt)
+        FEAT = (" --features " + os.environ["SEED_FEATURES"]) if os.environ.get("SEED_FEATURES") else ""
+        rc0, out0 = sh("cargo test --offline%s --test seed_demo 2>&1 | tail -5" % FEAT, cwd=wt)
         demo_without = "test result: ok" in out0
         rca, outa = sh("git apply %s" % patch, cwd=wt)
         meta["patch_applies"] = rca == 0
-        rc1, out1 = sh("cargo test --offline --test seed_demo 2>&1 | tail -8", cwd=wt)
+        rc1, out1 = sh("cargo test --offline%s --test seed_demo 2>&1 | tail -8" % FEAT, cwd=wt)
         demo_with_fails = "test result: FAILED" in out1 or "panicked" in out1 or rc1 != 0 and "test result: ok" not in out1
         os.remove(os.path.join(wt, "tests", "seed_demo.rs"))
         rc2, out2 = sh("cargo test --offline 2>&1 | grep -E '^test result|FAILED|^error' | sort | uniq -c", cwd=wt)
